@@ -378,10 +378,59 @@ func c20Property(rt *rapid.T, ev *evid.Rec) {
 	ec := make(chan error)
 	go mgr.Run(ec)
 	checkGen("Run", <-ec)
-	gated, b2b, storedNew, loadOverlap := false, false, false, false
+	gated, b2b, storedNew, loadOverlap, savedTwice, setupFault := false, false, false, false, false, false
 	nact := rapid.IntRange(1, 5).Draw(rt, "nactions")
 	for a := 0; a < nact; a++ {
-		switch rapid.IntRange(0, 5).Draw(rt, "action") {
+		switch rapid.IntRange(0, 7).Draw(rt, "action") {
+		case 6: // the same integration is saved a second time (the dashboard only ever inserts)
+			if len(dbIgs) == 0 {
+				continue
+			}
+			again := dbIgs[rapid.IntRange(0, len(dbIgs)-1).Draw(rt, "saveagain")]
+			store(again)
+			savedTwice = true
+			var rerr error
+			if p := catch(func() { rerr = mgr.Restart() }); p != nil {
+				fail("Restart panicked: %v (history %v)", p, hist)
+			}
+			checkGen("same integration saved again + Restart", rerr)
+		case 7: // a task cannot be set up while the generation is loaded (database error on its first round trip)
+			want := c20Model(file, dbIgs, srcs)
+			if want.err || len(want.tasks) == 0 {
+				continue
+			}
+			nth := rapid.IntRange(1, len(want.tasks)).Draw(rt, "failtask")
+			seen := 0
+			db.Fault = func(op fakepg.Op) fakepg.Fault {
+				if strings.HasPrefix(strings.ToLower(strings.TrimSpace(op.SQL)), "set application_name") {
+					seen++
+					if seen == nth {
+						return fakepg.Fault{Kind: fakepg.ErrReply, Code: "53300"}
+					}
+				}
+				return fakepg.Fault{}
+			}
+			var rerr error
+			pn := catch(func() { rerr = mgr.Restart() })
+			db.Fault = nil
+			if pn != nil {
+				fail("Restart panicked: %v (history %v)", pn, hist)
+			}
+			hist = append(hist, fmt.Sprintf("Restart with a failing task set-up -> err=%v", rerr != nil))
+			if rerr == nil && seen >= nth {
+				// reported success: then every configured pair must have its task
+				got := c20Observed(mgr)
+				if strings.Join(got, "\n") != strings.Join(want.tasks, "\n") {
+					fail("Restart reported success although one task could not be set up, and that pair has no task\n got:  %v\n want: %v", got, want.tasks)
+				}
+			}
+			setupFault = true
+			// the fault is gone: the next restart loads everything
+			var rerr2 error
+			if p := catch(func() { rerr2 = mgr.Restart() }); p != nil {
+				fail("Restart panicked: %v (history %v)", p, hist)
+			}
+			checkGen("Restart after the set-up fault cleared", rerr2)
 		case 5: // a second restart arrives while the generation of the first one is still loading its tasks
 			stall := make(chan struct{})
 			stalled := make(chan struct{}, 1)
@@ -573,7 +622,7 @@ func c20Property(rt *rapid.T, ev *evid.Rec) {
 			fail("tasks of source %s finished (%d positions at the stop block) but the node of %s was never asked for a block: they talked to another source's node (history %v)", s.name, done, s.name, hist)
 		}
 	}
-	ev.Case(clash || unknownRef || gated || b2b, fmt.Sprint(file, dbIgs, hist), fmt.Sprintf("sameChainSources=%v", sameChain), fmt.Sprintf("manySources=%v", len(fillers) > 0), fmt.Sprintf("clash=%v", clash), fmt.Sprintf("unknownSource=%v", unknownRef), fmt.Sprintf("restartDuringStep=%v", gated), fmt.Sprintf("backToBack=%v", b2b), fmt.Sprintf("restartWhileLoading=%v", loadOverlap), fmt.Sprintf("neverEndingTask=%v", forever), fmt.Sprintf("storedNew=%v", storedNew))
+	ev.Case(clash || unknownRef || gated || b2b, fmt.Sprint(file, dbIgs, hist), fmt.Sprintf("sameChainSources=%v", sameChain), fmt.Sprintf("manySources=%v", len(fillers) > 0), fmt.Sprintf("clash=%v", clash), fmt.Sprintf("unknownSource=%v", unknownRef), fmt.Sprintf("restartDuringStep=%v", gated), fmt.Sprintf("backToBack=%v", b2b), fmt.Sprintf("restartWhileLoading=%v", loadOverlap), fmt.Sprintf("savedTwice=%v", savedTwice), fmt.Sprintf("taskSetupFault=%v", setupFault), fmt.Sprintf("neverEndingTask=%v", forever), fmt.Sprintf("storedNew=%v", storedNew))
 	if (gated || b2b) && ev.WantSample(3) {
 		ev.Sample(3, map[string]any{"file_integrations": fmt.Sprint(file), "db_integrations": fmt.Sprint(dbIgs), "history": hist})
 	}
